@@ -407,5 +407,61 @@ def run(chk):
     if missing:
         raise core.AnalysisBroken("Math.hpp: derivative factor not found for %s" % missing)
 
+    # ---- C16.deriv2: functions of two arguments - the expression stored in each derivative slot, as a rational function
+    r_d2 = chk.rule("C16.deriv2", "DenseAd functions of two arguments (Math.hpp atan2 in its three overloads, pow(Evaluation, Evaluation)): the expression stored in derivative slot i equals the total derivative  f_x dx_i + f_y dy_i  - atan2: (dx y - x dy)/(x^2 + y^2), pow: (g f'/f + ln f g') f^g - compared as rational functions of the values and slot-i derivatives of the arguments (a scalar argument has derivative 0)", floor=4)
+    X2, Y2, dX2, dY2 = sy.S("X"), sy.S("Y"), sy.S("dX"), sy.S("dY")
+    seen_d2 = 0
+    for f in fm.fns:
+        if not f["file"].endswith("Math.hpp") or not f.get("body") or f.get("cls") or len(f["params"]) != 2:
+            continue
+        if f["n"] not in ("atan2", "pow"):
+            continue
+        evp = [p_["n"] for p_ in f["params"] if "Evaluation" in (p_.get("t") or "")]
+        if f["n"] == "pow" and len(evp) != 2:
+            continue
+        pn = [p_["n"] for p_ in f["params"]]
+        sets = [c for c in walk(f["body"]) if c["k"] in ("MCall", "Call") and meth(c)[0] == "setDerivative" and len(c.get("a") or []) == 2]
+        key = "%s(%s)" % (f["n"], ",".join("E" if p_["n"] in evp else "s" for p_ in f["params"]))
+        if len(sets) != 1:
+            raise core.AnalysisBroken("Math.hpp: %s has %d setDerivative calls (one expected)" % (key, len(sets)))
+
+        def leaf2(e, pn=pn, evp=evp):
+            m_, o_ = meth(e)
+            if m_ in ("value", "derivative") and o_ is not None and strip(o_).get("k") == "Ref" and strip(o_)["n"] in pn:
+                i = pn.index(strip(o_)["n"])
+                if m_ == "value":
+                    return (X2, Y2)[i]
+                return (dX2, dY2)[i] if strip(o_)["n"] in evp else None
+            if e.get("k") == "Ref" and e.get("d") == "Parm" and e.get("n") in pn and e["n"] not in evp:
+                return (X2, Y2)[pn.index(e["n"])]
+            if e.get("k") in ("Call", "MCall") and e.get("a") is not None:
+                nm = (e.get("m") or (e.get("fn") or "") or ((e.get("callee") or {}).get("n") or "")).split("::")[-1]
+                if nm in ("log", "pow", "exp", "sqrt"):
+                    args = [ev2.term(a_, env2) for a_ in e["a"]]
+                    if None not in args:
+                        return F(nm, *args)
+            return None
+        locs2 = {v["n"] for n in walk(f["body"]) if n["k"] == "Decl" for v in n["vars"]}
+        ev2 = sy.Eval(leaf2, locs2)
+        env2 = {}
+        for n in walk(f["body"]):
+            if n["k"] == "Decl":
+                for v in n["vars"]:
+                    if isinstance(v.get("init"), dict) and v["n"] != "result":
+                        env2[v["n"]] = ev2.term(v["init"], env2)
+        got = ev2.term(sets[0]["a"][1], env2)
+        dx = dX2 if pn[0] in evp else sy.I(0)
+        dy = dY2 if pn[1] in evp else sy.I(0)
+        if f["n"] == "atan2":
+            want = sy.div(sy.sub(sy.mul(dx, Y2), sy.mul(X2, dy)), sy.add(sy.mul(X2, X2), sy.mul(Y2, Y2)))
+        else:
+            want = sy.mul(sy.add(sy.div(sy.mul(Y2, dx), X2), sy.mul(F("log", X2), dy)), F("pow", X2, Y2))
+        seen_d2 += 1
+        chk.instance(r_d2, key, sample=dict(function=f["q"], line=sets[0]["l"], stored=sy.show_term(got), total_derivative=sy.show_term(want)))
+        if got is None or not sy.same_ratio(got, want):
+            chk.violation(r_d2, key, "DenseAd::%s stores  %s  in derivative slot i (X, Y: values of the arguments, dX, dY: their slot-i derivatives); the total derivative is  %s: the value is right and the derivatives are wrong" % (key, sy.show_term(got), sy.show_term(want)), f["file"], sets[0]["l"])
+    if seen_d2 < 4:
+        raise core.AnalysisBroken("Math.hpp: %d two-argument derivative sites found (atan2 x3, pow(E,E) expected)" % seen_d2)
+
     chk.assumptions += ["loop unrolling with dstart_()=1, dend_()=length_()=N+1, valuepos_()=0, size()=N as declared in each specialisation (checked by C16.included)",
-                        "the derivative factors of Math.hpp are compared with the table of elementary derivatives in rules/C16.py (C16.deriv); atan2, abs, min, max and the blending helpers are not in it"]
+                        "the derivative factors of Math.hpp are compared with the table of elementary derivatives in rules/C16.py (C16.deriv); abs, min, max and the blending helpers are not in it; atan2 and pow(E,E) are compared as rational functions (C16.deriv2)"]
